@@ -543,7 +543,7 @@ def runCond (f : Nat) (spec : Gen.CondSpec) : M Unit := do
       let mut row : List (Option Nat) := []
       let mut j := 0
       for tj in l2 do
-        if ti.uid == tj.uid || (decide (i > j) && spec.symmetry) then
+        if skipTwo (ti.uid == tj.uid) spec.symmetry i j then
           row := row ++ [Option.none]
         else
           let sj ← derefTriple tj
